@@ -415,4 +415,13 @@ func gen(g *vh.Gen) {
 		}
 		g.Emit("text", vh.HS(s))
 	}
+	for i := 0; i < g.N(1000, 50000); i++ {
+		var h string
+		if i%2 == 0 {
+			h = genHTML(g)
+		} else {
+			h = genStyled(g)
+		}
+		g.Emit("msg", vh.HS(validUTF8(h)), vh.HS(validUTF8(genPlain(g))))
+	}
 }
